@@ -1,14 +1,14 @@
 from props import Prop, Stream, reg
 
 reg(Prop('C04', [
-    Stream('c04.hdrspec', 4000, 400000, 'spec'),
-    Stream('c04.hdr', 6000, 600000, 'model'),
-    Stream('c04.insn', 6000, 600000, 'model'),
-    Stream('c04.op1', 24, 1500, 'model', exhaustive='per sampled header: all 256 opcode bytes x 3 operand tails'),
-    Stream('c04.prog', 10000, 1000000, 'spec'),
-    Stream('c04.any', 12000, 1500000, 'model'),
-    Stream('c04.cont', 4000, 400000, 'model'),
-    Stream('c04.seq', 6000, 600000, 'model'),
+    Stream('c04.hdrspec', 4000, 100000, 'spec'),
+    Stream('c04.hdr', 6000, 150000, 'model'),
+    Stream('c04.insn', 6000, 150000, 'model'),
+    Stream('c04.op1', 24, 600, 'model', exhaustive='per sampled header: all 256 opcode bytes x 3 operand tails'),
+    Stream('c04.prog', 10000, 250000, 'spec'),
+    Stream('c04.any', 12000, 400000, 'model'),
+    Stream('c04.cont', 4000, 100000, 'model'),
+    Stream('c04.seq', 6000, 150000, 'model'),
 ], clauses=[], design_ref='§5 C04',
     level_text='placeholder',
     level_note='',
